@@ -631,7 +631,7 @@ impl Bgi {
     }
 
     pub fn set_palette_color(&mut self, index: i32, color: u8) {
-        self.palette.set_color(index as u32, EGA_PALETTE[color as usize].clone());
+        self.palette.set_color(index as u32, EGA_PALETTE[color as usize % EGA_PALETTE.len()].clone());
     }
 
     pub fn get_font_type(&self) -> FontType {
